@@ -319,9 +319,9 @@ func ruleMatchCells(p *Program, r *Reporter) {
 		return
 	}
 	for _, spec := range []struct {
-		op         string
-		onMatch    string
-		onNoMatch  string
+		op        string
+		onMatch   string
+		onNoMatch string
 	}{{"OpMatches", "true", "false"}, {"OpNotMatches", "false", "true"}} {
 		key := "cell " + spec.op
 		cl := tbl.clause[spec.op]
